@@ -4,7 +4,7 @@ from __future__ import annotations
 
 import ast
 
-from ..astq import attr_stores, body_walk, dotted, src, walk_local, norm_stmt, fn_calls
+from ..astq import attr_stores, body_walk, dotted, src, walk_local, norm_stmt, fn_calls, tail
 from ..cfg import CFG
 from ..dataflow import ReachingDefs, walk_table
 from ..loader import Undecided
@@ -120,7 +120,7 @@ def r2_cancellation(chk: Check):
     nested = {ff.node.name for ff in tree.funcs.values() if ff.parent is f}
     for ff in tree.funcs.values():
         if ff.parent is f:
-            inner = [src(c) for c in fn_calls(ff.node)] + [src(t) for t, v, s_ in attr_stores(ff.node)]
+            inner = [src(c) for c in fn_calls(ff.node) if not (isinstance(c.func, ast.Name) and c.func.id in ("int", "bool", "len", "isinstance"))] + [src(t) for t, v, s_ in attr_stores(ff.node)]
             chk.require(not inner, chk.fkey(f, f"nested helper {ff.node.name} is pure"), f"nested helper `{ff.node.name}` of dependencychanged has effects {inner}", chk.loc(f.module, ff.node))
     calls = [src(c) for c in fn_calls(f.node) if not src(c).startswith(("logger.", "self._readyEvent.set", "self.state.")) and not (isinstance(c.func, ast.Name) and c.func.id in nested)]
     chk.require(not calls, chk.fkey(f, "no other effects"), f"dependencychanged calls {calls}", chk.loc(f.module, f.node))
@@ -143,7 +143,7 @@ def r4_propagation(chk: Check):
     lp = loops[0]
     calls = [c for s in lp.ast.body for c in walk_local(s) if isinstance(c, ast.Call)]
     v = src(lp.ast.target)
-    ok = any(src(c) in (f"self.loop.call_soon({v}.check)", f"{v}.check()") for c in calls)
+    ok = any(src(c) == f"{v}.check()" or (tail(c) in ("call_soon", "call_soon_threadsafe") and len(c.args) == 1 and not c.keywords and src(c.args[0]) == f"{v}.check") for c in calls)
     chk.require(ok, chk.fkey(sub, "each dependent is re-checked"), f"the dependents loop does {[src(c) for c in calls if not src(c).startswith('logger')]}: every dependent must be re-checked (called or scheduled) with no extra argument", chk.loc(sub.module, lp.ast))
     # on every live normal exit
     js = JobStates(tree)
